@@ -134,6 +134,10 @@ func c18case(c *engine.Ctx, src string, m c18member, aliasDepth int, route c18ro
 	} else if aliasDepth == -1 {
 		root = "al"
 		setup = "(def al top)"
+	} else if aliasDepth == -2 {
+		// the package value held in a plain hash of the script's own
+		root = "reg.pk"
+		setup = "(def reg (hash pk: top))"
 	}
 	w := fmt.Sprintf("%s|%d|%s|%s", strings.Join(m.path, "."), aliasDepth, route.name, write)
 	c.Begin(w)
@@ -260,7 +264,7 @@ func c18all(c *engine.Ctx, thorough bool, only string) {
 	}
 	src, members := c18build(depth)
 	for _, m := range members {
-		for ad := -1; ad <= m.pkgs; ad++ {
+		for ad := -2; ad <= m.pkgs; ad++ {
 			for _, rt := range c18reads() {
 				if c.Expired() {
 					return
@@ -286,7 +290,7 @@ func init() {
 		ID:    "C18",
 		Level: "exploration",
 		Rule: "a package tree of depth 3 (thorough 4) in which every package holds values, functions and hashes (with a nested hash) under an upper-case, a lower-case and an underscore name, and nested packages stored under all three kinds of names; " +
-			"for every member: every dot path from outside x {direct, alias of the top package, alias of each nested package on the way} x 4 read routes (operand of a builtin / call through the path, right-hand side of def, infix right-hand side, argument) and 2 write routes (set, infix assignment); " +
+			"for every member: every dot path from outside x {direct, alias of the top package, alias of each nested package on the way, the package held in a plain hash of the script} x 4 read routes (operand of a builtin / call through the path, right-hand side of def, infix right-hand side, argument) and 2 write routes (set, infix assignment); " +
 			"oracle R7: reachable iff the last hop is capitalised (for hash fields: iff the hash is stored under a capitalised name), nested packages traversable under any name; allowed -> the member's unique number / the write takes effect, denied -> an error and the member unchanged (read back through an inside getter); public functions keep access to private members",
 		Assumptions: []string{"lower-case fields of a hash are not package members and are not judged"},
 		Run:         func(c *engine.Ctx) { c18all(c, c.Thorough(), "") },
